@@ -138,7 +138,26 @@ func propC11(t *rapid.T) {
 		check("x.AndAny", xl.B, model.And(xl.Model, or))
 		runtime.KeepAlive(xl)
 	}
-	// operands are rebuilt per case; they must still be what they were (cheap sanity, owned by C07)
+	// the fold does not depend on what was computed before over the same list: a second aggregate of
+	// another kind, and the members themselves, are still what the models say
+	if fn != "AndAny" {
+		switch rapid.IntRange(0, 3).Draw(t, "afterwards") {
+		case 0:
+			check("HeapXor after "+fn, roaring.HeapXor(args()...), xor)
+		case 1:
+			check("FastAnd after "+fn, roaring.FastAnd(args()...), and)
+		case 2:
+			check("FastOr after "+fn, roaring.FastOr(args()...), or)
+		}
+	}
+	for i, l := range list {
+		if d := live.Check(l.B, l.Model); d != "" {
+			t.Fatalf("member #%d of the list changed during %s: %s\n  list: %s", i, fn, d, desc)
+		}
+		if !l.BufferIntact() {
+			t.Fatalf("the bytes behind zero-copy member #%d changed during %s\n  list: %s", i, fn, desc)
+		}
+	}
 	runtime.KeepAlive(list)
 	inst.Count("C11", "fn:"+fn)
 	inst.Count("C11", fmt.Sprintf("members:%d", len(list)))
